@@ -172,15 +172,25 @@ parsec_arena_release_chunk(parsec_arena_t* arena,
 {
     TRACE_FREE(arena_memory_unused_key, -arena->elem_size*chunk->count, chunk);
 
-    if( (chunk->count == 1) && (arena->released < arena->max_released) ) {
-        PARSEC_DEBUG_VERBOSE(10, parsec_debug_output, "Arena:\tpush a data of size %zu from arena %p, aligned by %zu, base ptr %p, data ptr %p, sizeof prefix %zu(%zd)",
-                arena->elem_size, arena, arena->alignment, chunk, chunk->data, sizeof(parsec_arena_chunk_t),
-                PARSEC_ARENA_MIN_ALIGNMENT(arena->alignment));
+    if( chunk->count == 1 ) {
+        int keep = 1;
         if(arena->max_released != INT32_MAX) {
-            (void)parsec_atomic_fetch_inc_int32(&arena->released);
+            /* Reserve the cache slot before using it (as done for 'used' on the
+             * allocation side): a test followed by an increment lets concurrent
+             * releases overshoot max_released. */
+            int32_t current = parsec_atomic_fetch_inc_int32(&arena->released) + 1;
+            if(current > arena->max_released) {
+                (void)parsec_atomic_fetch_dec_int32(&arena->released);
+                keep = 0;
+            }
         }
-        parsec_lifo_push(&arena->area_lifo, &chunk->item);
-        return;
+        if( keep ) {
+            PARSEC_DEBUG_VERBOSE(10, parsec_debug_output, "Arena:\tpush a data of size %zu from arena %p, aligned by %zu, base ptr %p, data ptr %p, sizeof prefix %zu(%zd)",
+                    arena->elem_size, arena, arena->alignment, chunk, chunk->data, sizeof(parsec_arena_chunk_t),
+                    PARSEC_ARENA_MIN_ALIGNMENT(arena->alignment));
+            parsec_lifo_push(&arena->area_lifo, &chunk->item);
+            return;
+        }
     }
     PARSEC_DEBUG_VERBOSE(10, parsec_debug_output, "Arena:\tdeallocate a tile of size %zu x %zu from arena %p, aligned by %zu, base ptr %p, data ptr %p, sizeof prefix %zu(%zd)",
             arena->elem_size, chunk->count, arena, arena->alignment, chunk, chunk->data, sizeof(parsec_arena_chunk_t),
